@@ -621,6 +621,37 @@ def run(db, chk):
            detail="" if not bad else "first failing (pool, range, min size): %r" % (bad[0],))
     chk.count_scenarios(n_cases, True)
 
+    # ---- A9: run_tasks() publishes the task set installed by the preceding set_tasks() ---------------
+    from ..effects import Effects as _Eff, fields_of as _fields_of
+    chk.rule("C11-A9", "run_tasks() dispatches the task set installed by the set_tasks() that precedes it (C11-A5): "
+             "nothing in run_tasks()' call tree (start / resume of a stopped or paused pool included) writes the "
+             "members set_tasks() writes", min_instances=1)
+    _eff = _Eff(db)
+
+    def _this_writes(f):
+        out = set()
+        for (k, p, h) in _eff.summary(f).effects:
+            if k == "w" and p and p[0] == ("this",):
+                fl = _fields_of(p)
+                if fl:
+                    out.add(fl[0])
+        return out
+    st_fns = [f for f in pool_fns if f.cls == POOL and f.name == "set_tasks" and f.body]
+    rt_fns = [f for f in pool_fns if f.cls == POOL and f.name == "run_tasks" and f.body]
+    if not st_fns or not rt_fns:
+        raise AnalysisBroken("C11-A9: thread_pool::set_tasks / run_tasks not instantiated")
+    task_members = set()
+    for f in st_fns:
+        task_members |= _this_writes(f)
+    if not task_members:
+        raise AnalysisBroken("C11-A9: set_tasks() writes no member")
+    for f in rt_fns:
+        over = sorted(_this_writes(f) & task_members)
+        chk.ob("C11-A9", "run_tasks() and its callees leave %s alone" % sorted(task_members), not over,
+               where=f.ploc, function=f.bn, construct="task-set(%s)" % ",".join(over or ["-"]),
+               detail="" if not over else "%s, installed by set_tasks(), is overwritten inside run_tasks() (e.g. by the "
+               "implicit resume of a paused pool): the blocks of the pending run_blocks() are never run and an older "
+               "task set runs instead" % over)
     # ---- P2: dispatch of run_blocks (bounded exhaustive interpretation) -----------------------------
     from ..interp import PyVec, Closure, NOT_HANDLED, Sym
     import copy as _copy
